@@ -38,7 +38,7 @@ def stmtOfDescr (d : String) : Option (Option Stmt) :=
       | _, ["?"] => mk .unsupported
       | .insert, [rel, ts] => (tuplesOfWire ts).bind fun ts => mk (.insert rel ts)
       | .delete, [rel, t] => (Tuple.ofWire t).bind fun t => mk (.delete rel t)
-      | .fact, [rel, t] => (Tuple.ofWire t).bind fun t => mk (.fact rel t)
+      | .fact, [rel, t] => (decName rel).bind fun rel => if t == "!" then mk (.factBad rel) else (Tuple.ofWire t).bind fun t => mk (.fact rel t)
       | .sessionRule, [h] => mk (.srule h)
       | .persistentRule, [h] => mk (.prule h)
       | .query, [rel, n] => (parseNat n).bind fun n => mk (.query rel n)
